@@ -14,22 +14,30 @@ from .core.source import Repo
 _G = {}
 
 
-def _apply(src, old, new):
-    if src.count(old) != 1:
-        return None
-    return src.replace(old, new)
+def _apply(src, old, new, occurrence=None):
+    """replace the only occurrence of `old` (or the n-th, 1-based, when `occurrence` is given)"""
+    if occurrence is None:
+        if src.count(old) != 1:
+            return None
+        return src.replace(old, new)
+    pos = -1
+    for _ in range(occurrence):
+        pos = src.find(old, pos + 1)
+        if pos < 0:
+            return None
+    return src[:pos] + new + src[pos + len(old):]
 
 
 def _one(args):
     kind, v = args
     mod, repo, prop, base_keys, base_unknown = _G["mod"], _G["repo"], _G["prop"], _G["keys"], _G["unk"]
-    edits = v.get("edits") or [{"file": v["file"], "old": v["old"], "new": v["new"]}]
+    edits = v.get("edits") or [{"file": v["file"], "old": v["old"], "new": v["new"], "occurrence": v.get("occurrence")}]
     overrides = {}
     for e in edits:
         src = overrides.get(e["file"], repo.sources_by_path.get(e["file"]))
         if src is None:
             return (kind, v["name"], "skipped", "file not present")
-        out = _apply(src, e["old"], e["new"])
+        out = _apply(src, e["old"], e["new"], e.get("occurrence"))
         if out is None:
             return (kind, v["name"], "skipped", "anchor text not found exactly once")
         overrides[e["file"]] = out
